@@ -639,6 +639,29 @@ Lemma dense_step_flats : dense_flag_spec fd_lats 8.
 Proof. intros s f s' H. unfold dense_step in H. col_tac H. Qed.
 Lemma dense_step_flons : dense_flag_spec fd_lons 9.
 Proof. intros s f s' H. unfold dense_step in H. col_tac H. Qed.
+Lemma dense_step_finfo : dense_flag_spec fd_info 5.
+Proof. intros s f s' H. unfold dense_step in H. col_tac H. Qed.
+Lemma dense_step_fkv : dense_flag_spec fd_kv 10.
+Proof. intros s f s' H. unfold dense_step in H. col_tac H. Qed.
+
+(* a DenseNodes message with at least one of its five columns: ids (1), DenseInfo (5), lat (8),
+   lon (9), keys_vals (10).  One with none is a group without nodes (what encoders write for it:
+   empty packed fields are not written) and is accepted as such (fix e69cac9). *)
+Definition dense_nonempty (d : msg) : bool :=
+  has_field 1 d || has_field 5 d || has_field 8 d || has_field 9 d || has_field 10 d.
+
+Lemma dense_empty_flags d dc s : gloop dense_step d (dc, df0) = Ok s ->
+  dense_empty (snd s) = negb (dense_nonempty d).
+Proof.
+  intros Hl.
+  pose proof (gloop_flag dense_step (fun s => fd_ids (snd s)) 1 dense_step_fids _ _ _ Hl) as G1.
+  pose proof (gloop_flag dense_step (fun s => fd_info (snd s)) 5 dense_step_finfo _ _ _ Hl) as G5.
+  pose proof (gloop_flag dense_step (fun s => fd_lats (snd s)) 8 dense_step_flats _ _ _ Hl) as G8.
+  pose proof (gloop_flag dense_step (fun s => fd_lons (snd s)) 9 dense_step_flons _ _ _ Hl) as G9.
+  pose proof (gloop_flag dense_step (fun s => fd_kv (snd s)) 10 dense_step_fkv _ _ _ Hl) as G10.
+  cbn in G1, G5, G8, G9, G10. unfold dense_empty, dense_nonempty. rewrite G1, G5, G8, G9, G10.
+  destruct (has_field 1 d), (has_field 5 d), (has_field 8 d), (has_field 9 d), (has_field 10 d); reflexivity.
+Qed.
 
 (* a DenseInfo column after the field loop and the fix-up: column k of the last field 5 *)
 Definition getI (k : Z) (s : dcols * dfound) : iter :=
@@ -852,7 +875,7 @@ Qed.
 Lemma icol_ic0 k : icol k ic0 = None.
 Proof. unfold icol. repeat destruct (_ =? _); reflexivity. Qed.
 
-Lemma scan_dense_inv c p dc d q x : scan_dense c p dc d q = Ok x ->
+Lemma scan_dense_inv c p dc d q x : scan_dense c p dc d q = Ok x -> dense_nonempty d = true ->
   exists s ids xf,
     gloop dense_step d (dc, df0) = Ok s /\
     fd_ids (snd s) = true /\ fd_lats (snd s) = true /\ fd_lons (snd s) = true /\
@@ -862,7 +885,8 @@ Lemma scan_dense_inv c p dc d q x : scan_dense c p dc d q = Ok x ->
       (forall k, icol k (c_info dc1) = getI k s) /\
       c_keyvals dc1 = keep (fd_kv (snd s)) (c_keyvals (fst s)).
 Proof.
-  unfold scan_dense. intros H. rbn H s Hl. rbn H dc1 Hf. rewrite dense_loop_g in Hl.
+  unfold scan_dense. intros H Hne. rbn H s Hl. rewrite dense_loop_g in Hl.
+  rewrite (dense_empty_flags _ _ _ Hl), Hne in H. cbn [negb] in H. rbn H dc1 Hf.
   unfold dense_fixup in Hf.
   destruct (fd_ids (snd s)) eqn:F1; [|discriminate]. destruct (fd_lats (snd s)) eqn:F2; [|discriminate].
   destruct (fd_lons (snd s)) eqn:F3; [|discriminate]. cbn in Hf. injection Hf as <-.
@@ -873,10 +897,10 @@ Proof.
   intros k. unfold getI. destruct (fd_info (snd s)); [reflexivity|apply icol_ic0].
 Qed.
 
-Theorem dense_mandatory_ok c p dc d q x : scan_dense c p dc d q = Ok x ->
+Theorem dense_mandatory_ok c p dc d q x : scan_dense c p dc d q = Ok x -> dense_nonempty d = true ->
   has_field 1 d = true /\ has_field 8 d = true /\ has_field 9 d = true.
 Proof.
-  intros H. destruct (scan_dense_inv _ _ _ _ _ _ H) as (s & ids & xf & Hl & F1 & F2 & F3 & _).
+  intros H Hne. destruct (scan_dense_inv _ _ _ _ _ _ H Hne) as (s & ids & xf & Hl & F1 & F2 & F3 & _).
   pose proof (gloop_flag dense_step (fun s => fd_ids (snd s)) 1 dense_step_fids _ _ _ Hl) as G1.
   pose proof (gloop_flag dense_step (fun s => fd_lats (snd s)) 8 dense_step_flats _ _ _ Hl) as G2.
   pose proof (gloop_flag dense_step (fun s => fd_lons (snd s)) 9 dense_step_flons _ _ _ Hl) as G3.
@@ -894,7 +918,9 @@ Lemma scan_dense_cols c p dc d q x ids :
     (forall k l, par_col k -> dense_par_col k d = Some l -> dget k dc1 = Some l) /\
     (forall kv, col 10 d = Some kv -> c_keyvals dc1 = Some kv).
 Proof.
-  intros H Hi. destruct (scan_dense_inv _ _ _ _ _ _ H)
+  intros H Hi.
+  assert (Hne : dense_nonempty d = true) by (unfold dense_nonempty; rewrite (col_has_field 1 d ids Hi); reflexivity).
+  destruct (scan_dense_inv _ _ _ _ _ _ H Hne)
     as (s & ids' & xf & Hl & _ & _ & _ & Ei & dc1 & Hx & E8 & E9 & EI & Ekv).
   pose proof (gloop_col dense_step _ 1 dense_step_ids _ _ _ Hl) as G1.
   pose proof (gloop_col dense_step _ 8 dense_step_lats _ _ _ Hl) as G8.
@@ -980,10 +1006,10 @@ Inductive in_block_damage (c : cfg) (m : msg) : Prop :=
   (* a group of plain (non-dense) Node messages *)
   | IB_plain_node g v :
       In (2, WMsg g) m -> In (1, v) g -> in_block_damage c m
-  (* DenseNodes without ids (1), lat (8) or lon (9) *)
+  (* DenseNodes with some column but without ids (1), lat (8) or lon (9) *)
   | IB_dense_missing g d n :
       In (2, WMsg g) m -> In (2, WMsg d) g -> skip_nodes c = false ->
-      n = 1 \/ n = 8 \/ n = 9 -> has_field n d = false -> in_block_damage c m
+      n = 1 \/ n = 8 \/ n = 9 -> has_field n d = false -> dense_nonempty d = true -> in_block_damage c m
   (* a dense column (lat, lon, or one of the six DenseInfo columns) shorter than ids *)
   | IB_dense_short g d ids k l :
       In (2, WMsg g) m -> In (2, WMsg d) g -> skip_nodes c = false ->
@@ -1046,7 +1072,7 @@ Proof.
   intros D st. destruct D.
   - eapply plain_node_group_is_err; eassumption.
   - eapply bad_dense_is_err; try eassumption. intros p dc q x Hp Hs.
-    destruct (dense_mandatory_ok _ _ _ _ _ _ Hs) as (M1 & M8 & M9).
+    destruct (dense_mandatory_ok _ _ _ _ _ _ Hs H4) as (M1 & M8 & M9).
     destruct H2 as [->|[->| ->]]; congruence.
   - eapply bad_dense_is_err; try eassumption. intros p dc q x Hp Hs.
     pose proof (dense_columns_ok _ _ _ _ _ _ _ _ _ Hs H2 H3 H4). lia.
